@@ -130,7 +130,7 @@ private:
             built_in_null_values{
                 {"char", "0"},
                 {"int8", "-128"},
-                {"int16", "-327678"},
+                {"int16", "-32768"},
                 {"int32", "-2147483648"},
                 {"int64", "-9223372036854775807 - 1"},
                 {"uint8", "255"},
